@@ -100,6 +100,13 @@ def check_token(ctx: Ctx, header, kind, text, kern_ref):
                   case)
 
 
+def _outcome(fn, text):
+    try:
+        return ('ok',) + tuple(kpx.tok_fp(fn(text)))
+    except Exception as e:  # noqa
+        return ('raised', type(e).__name__)
+
+
 def kern_reference(text):
     import kernpy as kp
     from ..monitors import consumption
@@ -151,6 +158,7 @@ def doc_level(ctx: Ctx, cs):
 
 
 def run(ctx: Ctx):
+    import kernpy as kp
     from ..monitors import consumption
     consumption.install()
     shard_i, shard_n = ctx.shard if ctx.shard else (0, 1)
@@ -161,7 +169,8 @@ def run(ctx: Ctx):
                 'a hostile alphabet, each imported under **text **dynam **dyn **harm **mxhm **fing and two unknown headers; '
                 'shared structure must equal the fresh **kern token (class, category, encoding, hidden), everything else must be '
                 'a verbatim token of the type\'s own category; for random strings "shared structure" is decided by a fresh kern '
-                'importer AND the input-consumption monitor. Plus whole documents re-headed under each type. '
+                'importer AND the input-consumption monitor. Plus histories (one importer instance per type reused for the whole corpus in shuffled orders, each outcome compared with a '
+                'fresh importer) and whole documents re-headed under each type. '
                 'Non-trivial = distinct (kind, text) cell that is not plain free text; distinct by text.')
     ctx.assumptions = ['own category per type: text=LYRICS, dynam/dyn=DYNAMICS, harm=HARMONY, mxhm=HARMONY|MHXM, fing=FINGERING, unknown=OTHER']
     headers = ['**text', '**dynam', '**dyn', '**harm', '**mxhm', '**fing', '**foo', '**silbe']
@@ -192,6 +201,29 @@ def run(ctx: Ctx):
         if idx % 997 == 5:
             ctx.sample({'kind': kind, 'text': text, 'kern_reference': list(ref[0][:3]) if ref[0] else None,
                         'fully_consumed': ref[1]})
+    # histories: ONE importer instance per header is reused for the whole corpus in shuffled orders; every outcome must be
+    # the one a fresh importer gives (the outcome for a cell never depends on which cells were parsed before it)
+    uniq = list(seen)
+    fresh = {}
+    for h in headers:
+        for kind, text in uniq:
+            fresh[(h, text)] = _outcome(lambda t, h=h: kp.createImporter(h).import_token(t), text)
+    for rnd in range(2 if ctx.tier == 'quick' else 4):
+        for h in headers:
+            imp = kp.createImporter(h)
+            order = uniq[:]
+            rng.shuffle(order)
+            prev = None
+            for kind, text in order:
+                ctx.ev()
+                ctx.mon('reused_importer_calls')
+                oc = _outcome(imp.import_token, text)
+                if oc != fresh[(h, text)]:
+                    ctx.violation('outcome-depends-on-history', f'{h}: a reused importer gives {str(oc)[:90]} for {text!r} right after '
+                                  f'{prev!r}; a fresh importer gives {str(fresh[(h, text)])[:90]}',
+                                  {'header': h, 'kind': 'history', 'text': text, 'previous': prev})
+                    break
+                prev = text
     n_docs = 60 if ctx.tier == 'quick' else 400 // shard_n + 1
     for i in range(n_docs):
         doc_level(ctx, subseed(ctx.seed, 'c18doc', shard_i, i))
@@ -206,7 +238,14 @@ def run(ctx: Ctx):
 def replay(ctx, w):
     from ..monitors import consumption
     consumption.install()
-    if w.get('kind') == 'doc':
+    if w.get('kind') == 'history':
+        import kernpy as kp
+        imp = kp.createImporter(w['header'])
+        for t in (w['previous'], w['text']):
+            if t is not None:
+                print(t, '->', _outcome(imp.import_token, t), ' fresh:', _outcome(lambda x: kp.createImporter(w['header']).import_token(x), t))
+        ctx.ev()
+    elif w.get('kind') == 'doc':
         doc_level(ctx, w['case_seed'])
     else:
         ref = kern_reference(w['text'])
